@@ -8,11 +8,48 @@ import (
 )
 
 func main() {
-	p, err := core.Load(core.Config{Dir: "/repo"})
+	dir := "/repo"
+	if d := os.Getenv("DBGREPO"); d != "" {
+		dir = d
+	}
+	p, err := core.Load(core.Config{Dir: dir})
 	if err != nil {
 		panic(err)
 	}
+	if os.Args[2] == "*" {
+		// zone analysis of every function of a package
+		tot, ok := 0, 0
+		for _, f := range p.ModuleFuncs() {
+			if f.Pkg == nil || f.Pkg.Pkg.Path() != core.ModulePath+"/"+os.Args[1] && !(os.Args[1] == "" && f.Pkg.Pkg.Path() == core.ModulePath) {
+				continue
+			}
+			res := p.ZoneAnalyze(f)
+			if res == nil {
+				continue
+			}
+			for _, s := range res.Sites {
+				tot++
+				if s.Proved {
+					ok++
+					continue
+				}
+				fmt.Printf("%-50s %-6s %-36s %s (%s)\n", f, s.Kind, s.Expr, s.Missing, p.InstrPos(s.Instr))
+			}
+		}
+		fmt.Printf("%d sites, %d proved\n", tot, ok)
+		return
+	}
 	fn := p.Func(os.Args[1], os.Args[2], os.Args[3])
+	if len(os.Args) > 4 && os.Args[4] == "zone" {
+		for _, f := range core.WithAnons(fn) {
+			res := p.ZoneAnalyze(f)
+			fmt.Printf("%s: vars=%d iter=%d\n", f, res.Vars, res.Iter)
+			for _, s := range res.Sites {
+				fmt.Printf("  %-6s %-40s proved=%v dead=%v %s  (%s)\n", s.Kind, s.Expr, s.Proved, s.Dead, s.Missing, p.InstrPos(s.Instr))
+			}
+		}
+		return
+	}
 	if len(os.Args) > 4 {
 		fn.WriteTo(os.Stdout)
 		return
